@@ -359,8 +359,13 @@ class TDS(BaseRoutine):
         if system.dae.t < 0:
             self.init()
         elif self.initialized and system.dae.t == 0 and system.dae.kcount == 0:
-            # `init()` was called explicitly and no step has been taken: start like a fresh run
-            pass
+            # `init()` was called explicitly and no step has been taken: store the initial point and
+            # process the events at the start time, then advance like a resumed simulation
+            if config.save_every != 0:
+                dae.store()
+            dae.kcount += 1
+            self.do_switch()
+            self.init_resume()
         else:  # resume simulation
             self.init_resume()
 
